@@ -6,6 +6,7 @@ use crate::pool;
 use serde_json::{json, Value};
 
 pub mod c01;
+pub mod c02;
 pub mod c03;
 pub mod c04;
 pub mod c15;
@@ -18,6 +19,7 @@ pub fn parent_main(prop: &str, tier: &str) -> i32 {
     match prop {
         "SMOKE" => smoke::parent(tier),
         "C01" => c01::parent(tier),
+        "C02" => c02::parent(tier),
         "C03" => c03::parent(tier),
         "C04" => c04::parent(tier),
         "C20" => c20::parent(tier),
@@ -35,6 +37,10 @@ pub fn worker_main(prop: &str, tier: &str, _slot: usize) {
         "SMOKE" => pool::worker_loop(|t, io| smoke::handle(tier, t, io)),
         "C01" => {
             let mut h = c01::handle_factory();
+            pool::worker_loop(|t, io| h(tier, t, io))
+        }
+        "C02" => {
+            let mut h = c02::handle_factory();
             pool::worker_loop(|t, io| h(tier, t, io))
         }
         "C03" => {
